@@ -815,8 +815,8 @@ fn heavy_inputs(reps: usize) -> Vec<(usize, Vec<u8>)> {
 
 // ------------------------------------------------------------------ pkgdb trees
 
-const DB_SHAPES: [&[u8]; 13] = [
-    b"foo", b"-1", b"a-", b"-", b"a-b-1.0nb2", b"x\xff-1", b"plainfile-1", b"broken-1", b"half-1", b"dangling-1", b"loop-1", b"linked-1", b"fifo-1",
+const DB_SHAPES: [&[u8]; 15] = [
+    b"foo", b"-1", b"a-", b"-", b"a-b-1.0nb2", b"x\xff-1", b"plainfile-1", b"broken-1", b"half-1", b"dangling-1", b"loop-1", b"linked-1", b"fifo-1", b"selfloop-1", b"notdir-1",
 ];
 
 fn build_db(root: &Path, mask: u32) -> std::io::Result<()> {
@@ -844,8 +844,21 @@ fn build_db(root: &Path, mask: u32) -> std::io::Result<()> {
                 std::fs::create_dir_all(&p)?;
                 std::fs::write(p.join("+COMMENT"), b"c\n")?;
                 std::fs::write(p.join("+CONTENTS"), b"bin/x\n")?;
-                // (no mkfifo command on this machine: the shape degrades to an incomplete directory)
-                let _ = std::process::Command::new("mkfifo").arg(p.join("+DESC")).stderr(std::process::Stdio::null()).status();
+                mc_drivers::mkfifo(&p.join("+DESC"))?;
+            }
+            b"selfloop-1" => {
+                // a mandatory entry that cannot be examined: a symbolic link to itself (ELOOP)
+                std::fs::create_dir_all(&p)?;
+                std::fs::write(p.join("+COMMENT"), b"c\n")?;
+                std::fs::write(p.join("+CONTENTS"), b"bin/x\n")?;
+                std::os::unix::fs::symlink("+DESC", p.join("+DESC"))?;
+            }
+            b"notdir-1" => {
+                // ... and one whose target path runs through a regular file (ENOTDIR)
+                std::fs::create_dir_all(&p)?;
+                std::fs::write(p.join("+COMMENT"), b"c\n")?;
+                std::os::unix::fs::symlink("+COMMENT/x", p.join("+CONTENTS"))?;
+                std::fs::write(p.join("+DESC"), b"d\n")?;
             }
             b"plainfile-1" => std::fs::write(&p, b"not a directory")?,
             b"broken-1" => {
@@ -1019,6 +1032,12 @@ fn plan(thorough: bool) -> Plan {
     // the named-pipe shape with every combination of the link shapes and every eighth plain subset
     for links in 0u32..8 {
         items.push(Item::Pkgdb { lo: (1 << 12) | (links << 9), hi: ((1 << 12) | (links << 9)) + 512 });
+    }
+    // the two unexaminable-entry shapes likewise
+    for extra in [1u32 << 13, 1 << 14, 3 << 13] {
+        for links in 0u32..8 {
+            items.push(Item::Pkgdb { lo: extra | (links << 9), hi: (extra | (links << 9)) + 512 });
+        }
     }
     for n in if thorough { vec![4_000usize, 30_000, 200_000] } else { vec![4_000usize, 30_000] } {
         items.push(Item::PkgdbStrays { n });
@@ -1379,8 +1398,8 @@ fn main() {
          names, one per shape, from the repository's fixtures) every prefix, every single-byte \
          deletion, every substitution from a 12-byte palette, every line duplication and every \
          two-cut splice; (iii) every digit run replaced by 19/20/40-digit runs and every token \
-         repeated 10^5 times (2*10^4 in the quick tier); (iv) 960 package-database layouts \
-         over 12 directory shapes (all 512 subsets of the nine plain shapes, and each combination of the three link shapes with 64 of them) (incl. dangling, looping and valid symbolic links), and databases holding 4 000 / 30 000 (thorough: 200 000) stray files next to one package. Every call under catch_unwind with a watchdog (2 s, 10 s for \
+         repeated 10^5 times (2*10^4 in the quick tier); (iv) package-database layouts \
+         over 15 directory shapes (all 512 subsets of the nine plain shapes; each combination of the three link shapes with 64 of them; the same again with a named pipe, with a mandatory entry that is a symbolic link to itself, and with one whose target runs through a regular file), and databases holding 4 000 / 30 000 (thorough: 200 000) stray files next to one package. Every call under catch_unwind with a watchdog (2 s, 10 s for \
          the long inputs), in a child process so that aborts are observed. Non-trivial = inputs \
          that are mutations, long, or contain NUL / bytes >= 0x80. Summary call sequences are \
          covered by C07's graph (every accessor in every reached state).",
